@@ -667,10 +667,13 @@ class _Frame:
                 return a > b
             if isinstance(op, ast.GtE):
                 return a >= b
-            if isinstance(op, ast.In):
-                return any(a == x for x in b) if not isinstance(b, (str, dict)) else a in b
-            if isinstance(op, ast.NotIn):
-                return not (any(a == x for x in b) if not isinstance(b, (str, dict)) else a in b)
+            if isinstance(op, (ast.In, ast.NotIn)):
+                if isinstance(b, EnumVal):
+                    b = b.value
+                if isinstance(a, EnumVal) and isinstance(b, str):
+                    a = a.value
+                res = any(a == x for x in b) if not isinstance(b, (str, dict)) else a in b
+                return res if isinstance(op, ast.In) else not res
             if isinstance(op, ast.Is):
                 if isinstance(a, EnumVal) and isinstance(b, EnumVal):
                     return a == b
@@ -830,6 +833,9 @@ class _Frame:
             if f.is_static():
                 return _Bound(self.I, f, None)
             return _Bound(self.I, f, obj)
+        nc = self.I.repo.nested_class(obj.cls, name)
+        if nc is not None:
+            return nc
         ce, owner = self.I.repo.class_attr(obj.cls, name)
         if ce is not None:
             return self.I.eval_expr(ce, {}, owner.file, owner.module)
@@ -843,6 +849,9 @@ class _Frame:
         f = self.I.repo.lookup_method(ci, attr)
         if f is not None:
             return _Bound(self.I, f, None, static=True)
+        nc = self.I.repo.nested_class(ci, attr)
+        if nc is not None:
+            return nc
         ce, owner = self.I.repo.class_attr(ci, attr)
         if ce is not None:
             return self.I.eval_expr(ce, {}, owner.file, owner.module)
